@@ -35,7 +35,8 @@ func canonArr(v interface{}) string {
 // placement decodes raw as array type arrayOid with the real code and compares it, element by element, with the
 // real scalar decoding (DecodeType with elemOid) of the expected element byte strings.  Output: "~" for a nil result,
 // otherwise "[t1,t2,…]" with, per element of the RESULT: "~" if it is nil where a NULL is expected, "b<hex>" if it
-// equals the scalar decoding of the expected bytes <hex>, "!<value>" if it differs, "+<value>" if it is beyond the
+// equals the scalar decoding of the expected bytes <hex>, "v<value>" if it equals the literally expected <value>,
+// "!<value>" if it differs, "+<value>" if it is beyond the
 // expected list.
 func placement(args []string) string {
 	arrayOid, elemOid := core.Atoi(args[0]), core.Atoi(args[1])
@@ -73,6 +74,13 @@ func placement(args []string) string {
 		case strings.HasPrefix(expected[i], "b"):
 			eb := core.Unhex(expected[i][1:])
 			if want := core.CanonVal(pgdump.DecodeType(eb, elemOid)); want == got {
+				toks[i] = expected[i]
+			} else {
+				toks[i] = "!" + got
+			}
+		case strings.HasPrefix(expected[i], "v"):
+			// a value given literally (the empty string of an empty text-like element)
+			if expected[i][1:] == got {
 				toks[i] = expected[i]
 			} else {
 				toks[i] = "!" + got
